@@ -310,3 +310,10 @@ def r7(c):
                 if x['node'] in reg and x['kind'] == 'agg' and x['adt'] == AUTH and x['variant'] == v:
                     ok = True
         c.ob('ffi/convert/%s' % v, ok, 'ffi::Authorization::%s converts to Authorization::%s' % (v, v), '', loc_of(conv))
+
+
+@rule('C08', 'R08.8', 'with an authorization handler configured a session exists only with a role: role extraction and the choice of AuthorizationType (C09/R09.3)',
+      needs=lambda P: P.has('rodbus::tcp::tls::server::TlsServerConfig::new'))
+def r8(c):
+    from rules import c09
+    c09.r3(c)
